@@ -257,6 +257,15 @@ PROPS['C17'] = {
     'assumptions': ['behavioural equality with the hand-assembled environment is decided by running the real factory-built environment, the hand-assembled one and the model on the same histories'],
 }
 
+def _custom_classes(seed, tier):
+    from harness import customprobe
+
+    return customprobe.check(seed, tier)
+
+
+_custom_classes.__name__ = 'user_defined_classes_next_to_built_ins'
+
+
 def _xproc(seed, tier):
     from harness import xproc
 
@@ -329,3 +338,7 @@ PROPS['C14'] = {
 }
 
 NOT_CLAIMED = {}
+
+# user-defined GridObject classes next to the built-in ones (subprocess probe, see harness/customprobe.py)
+PROPS['C16']['extra'] = [_custom_classes]
+PROPS['C17']['extra'] = [_custom_classes]
